@@ -19,6 +19,19 @@ CLAIMED = {
         technique="Lean 4 refinement + invariant proofs over op sequences; differential correspondence model vs implementation",
         design="DESIGN.md §5 C10",
     ),
+    "C08": dict(
+        text="Lean 4 theorems (AQ.Props.C08) prove for every well-formed operation sequence (fresh packet numbers) and for EVERY "
+             "float arithmetic: bytes_in_flight = total size of tracked in-flight packets (>= 0), ack-eliciting counters exact, every "
+             "packet reported ACKED or LOST at most once and discarded packets never, congestion window >= 2 datagrams (Reno "
+             "unconditionally; CUBIC under seven explicit IEEE order facts), plus necessity counterexamples. The model (recovery.py, "
+             "reno.py, cubic.py, transcribed operation by operation over an abstract arithmetic) is run with Lean Float and compared "
+             "bit-for-bit with the real QuicPacketRecovery on random interleavings; a connection-level oracle checks the ledger after "
+             "every API call incl. Retry / Version Negotiation restarts. The flight-budget clause is decided with the builder model (C13).",
+        note="Trusted: Lean kernel; standard axioms only; correspondence harness (harness/impl_recovery.py, harness/sim.py); "
+             "CubicOrderFacts (IEEE-754 monotonicity/exactness below 2^53) are hypotheses of cwnd_floor_cubic only; packet numbers fresh per space.",
+        technique="Lean 4 invariant proofs by induction over op sequences, generic in the float arithmetic; bit-exact differential correspondence",
+        design="DESIGN.md §5 C08",
+    ),
 }
 NOT_YET = "machinery for this property is still under construction in this round (model/proofs/correspondence incomplete); not claimed"
 
